@@ -20,9 +20,15 @@ def build(mesh):
     xyz = np.array([r[1:4] for r in mesh['nodes']], dtype=float).reshape(-1, 3)
     blocks = {}
     for t, rows in mesh['blocks']:
+        if len(set(len(c) for _, c in rows)) > 1:
+            # ragged rows (polygon / polyhedron): an object array of int arrays
+            conn = np.empty(len(rows), dtype=object)
+            for k, (_, c) in enumerate(rows):
+                conn[k] = np.array(c, dtype=np.int64)
+        else:
+            conn = np.array([c for _, c in rows], dtype=np.int64)
         blocks[t] = FEMAttribute(
-            t, np.array([e for e, _ in rows], dtype=np.int64),
-            np.array([c for _, c in rows], dtype=np.int64))
+            t, np.array([e for e, _ in rows], dtype=np.int64), conn)
     return femio.FEMData(nodes=FEMAttribute('NODE', ids, xyz),
                          elements=FEMElementalAttribute('ELEMENT', blocks))
 
